@@ -36,17 +36,19 @@ RULE = ("args unchanged by loads/dumps/validate/find* (deep snapshots, judged by
 
 PURE = ["loads", "dumps", "validate", "find", "findall", "findunique", "findkey"]
 CORE = ["loads", "dumps", "validate", "findall"]
-ALLDOCS = [1, 2, 3, 4, 5, 6, 7, 8]
+ALLDOCS = [1, 2, 3, 4, 5, 6, 7, 8, 9, 10]
 BUILD = os.path.join(common.VERIF, "build")
 RUN = "%d" % os.getpid()        # run directories and scratch files are private to this run (two C12 runs may overlap)
 
 
 def calls_cfg(threads, policy, kinds, docs, maxcalls, maxper, clears=True, keyv=True, lower=True, finds=False,
-              inccache="none", fmtcopy=True, record=False, mode="free", invs=("SeqEquivalent", "TypeOK"), props=("ArgsUnchanged",)):
+              inccache="none", fmtcopy=True, cdictnew=True, incresolve="join", record=False, mode="free",
+              invs=("SeqEquivalent", "TypeOK", "CwdRestored"), props=("ArgsUnchanged",)):
     return tlc.cfg_text(constants={
         "Threads": set(threads), "Policy": policy, "Mode": mode, "Kinds": set(kinds), "Docs": set(docs),
         "MaxCalls": maxcalls, "MaxPerThread": maxper, "ClearsBuf": clears, "KeyByVersion": keyv,
         "LowerOnCopy": lower, "FindInserts": finds, "IncCache": inccache, "FormatOnCopy": fmtcopy,
+        "CdictRebuilt": cdictnew, "IncResolve": incresolve,
         "Record": record}, invariants=list(invs), properties=list(props))
 
 
@@ -74,6 +76,10 @@ NEGATIVES = [
                                       keyv=False), "SeqEquivalent"),
     ("neg_include_cache_by_name", dict(threads=[1], policy="shared_all", kinds=["loads"], docs=[1, 7, 8], maxcalls=2, maxper=2,
                                        inccache="by_name"), "SeqEquivalent"),
+    ("neg_comments_dict_kept", dict(threads=[1], policy="shared_all", kinds=["loads"], docs=[4, 10], maxcalls=2, maxper=2,
+                                    cdictnew=False), "SeqEquivalent"),
+    ("neg_include_via_chdir", dict(threads=[1, 2], policy="fresh", kinds=["loads"], docs=[7, 8, 9], maxcalls=2, maxper=1,
+                                   incresolve="chdir"), "SeqEquivalent"),
     ("neg_format_in_place", dict(threads=[1], policy="fresh", kinds=["dumps"], docs=[1, 4], maxcalls=2, maxper=2,
                                  fmtcopy=False), "ArgsUnchanged"),
     ("neg_lower_in_place", dict(threads=[1], policy="fresh", kinds=["validate"], docs=[4, 5], maxcalls=2, maxper=2,
@@ -95,6 +101,8 @@ def pick_seams(desc, n, doctable, rng):
         hot = [p for p in pcs if p in ("lex2", "lex3", "cdict", "assign")]
         if hot:
             must = [rng.choice(hot)]
+    if "iresolve" in pcs and n >= 2:
+        must.append("iresolve")        # inside the include step: path resolution is where process-wide state matters
     rest = [p for p in pcs if p not in must]
     chosen = set(must + rng.sample(rest, n - len(must)))
     return [p for p in pcs if p in chosen]
@@ -123,6 +131,8 @@ def make_scripts(doctable, rng, quick):
         (D("findkey", 4), D("dumps", 4), 1, 3, "same"),
         # two documents in different folders with a same-named relative INCLUDE, read through open/load
         (D("loads", 7, True), D("loads", 8, True), c, b, "same"),
+        # text whose include is relative to the working directory, next to a file opened elsewhere
+        (D("loads", 9, False), D("loads", 8, False), c, c, "same"),
     ]
     out = []
     for x, y, nx, ny, rel in pairs:
@@ -242,6 +252,9 @@ def _run(ck, seed, quick, pool, nproc, t0):
     doctable = next((p["doctable"] for p in r0.prints if isinstance(p, dict) and "doctable" in p), None)
     if not doctable:
         raise common.MachineryFailure("spec/Calls.tla did not print its document table")
+    cwd0 = next(p["cwd0"] for p in r0.prints if isinstance(p, dict) and "doctable" in p)
+    for a in doctable:
+        a["cwd0"] = cwd0            # the label the specification gives the working directory of the process
 
     root = os.path.join(BUILD, "c12_%s_files" % RUN)
     L.write_files(L.build_docs(doctable, seed, 2, root), root)
